@@ -1,14 +1,1083 @@
-//! C04 — stub, to be implemented.
+//! C04 — routing depends only on the configured frontends, by documented precedence.
+//!
+//! modelsim check: seeded add/remove/re-add histories against the real `sozu_lib::router::Router`
+//! (the object `HttpListener`/`HttpsListener` call for every request and every frontend command),
+//! compared after every operation, for every probe request, with an independent reference model
+//! written from `doc/configure.md` ("Path matching precedence within a frontend") and the property
+//! statement. The model never calls the code under test and does not use the `regex` crate: host
+//! and path regexes come from a small catalogue whose matchers are written by hand.
+//!
+//! Oracles (violation classes), evaluated after every operation for every probe; a run stops at the
+//! first operation with a violation so that every report is a first divergence:
+//! * `wrong_route`            sozu's decision is not in the model's set of acceptable outcomes
+//! * `removed_frontend_routes` the decision names a frontend that was removed
+//! * `unrelated_change`       an add/remove of a frontend that does not match the request changed its route
+//! * `order_dependent`        the configured set re-inserted in two PRNG-chosen orders answers a
+//!                            single-answer request differently
+//! * `add_refused` / `add_duplicate_accepted` / `remove_refused`  result of the operation itself
+//! * `route_fields_mismatch`  right frontend, but the decision's policy fields differ from its configuration
+//! * `panic`
+//!
+//! Keys name the broken documented relation (`want=EQUALS/any got=PREFIX/any`, `got=regex_partial_match`,
+//! `EQUALS`, ...). Two plan-level triggers collapse all downstream symptoms into one key per class,
+//! because the defect they stand for corrupts the routing state itself: `regex_host_in_tree` (a regex
+//! hostname was configured in the tree) and `after_removal_of_tree_EQUALS_frontend`.
 #![allow(dead_code)]
+use std::collections::{BTreeMap, BTreeSet};
+use std::panic::{catch_unwind, AssertUnwindSafe};
+
+use serde::{Deserialize, Serialize};
 use serde_json::Value;
+use sozu_command_lib::proto::command::{PathRule as CmdPathRule, RulePosition};
+use sozu_command_lib::response::HttpFrontend;
+use sozu_lib::protocol::http::parser::Method;
+use sozu_lib::router::Router;
+
 use crate::framework::*;
+use crate::prng::{Prng, TraceHash};
+use crate::world::{SchedCfg, World};
 
 pub struct C04;
 
+// ------------------------------------------------------------------------------------------ plan
+
+pub const PRE: u8 = 0;
+pub const POST: u8 = 1;
+pub const TREE: u8 = 2;
+pub const PREFIX: u8 = 0;
+pub const REGEX: u8 = 1;
+pub const EQUALS: u8 = 2;
+
+#[derive(Clone, Debug, Serialize, Deserialize, PartialEq)]
+pub enum RouteSpec {
+    /// plain frontend of cluster `c<uid>`
+    Cluster,
+    /// no cluster, no policy: the legacy "401" frontend (not individually identifiable)
+    Deny,
+    /// redirect policy (1 PERMANENT, 3 FOUND, 4 PERMANENT_REDIRECT); identifiable by cluster and/or template `/t<uid>`
+    Redirect { policy: i32, scheme: i32, template: bool, cluster: bool },
+    /// cluster `c<uid>` with redirect = UNAUTHORIZED
+    PolicyDeny { scheme: i32 },
+    /// cluster `c<uid>` with required_auth
+    Auth,
+    /// cluster `c<uid>` with rewrite_port
+    Port(u32),
+}
+
+#[derive(Clone, Debug, Serialize, Deserialize, PartialEq)]
+pub struct Front {
+    pub uid: u32,
+    pub pos: u8,
+    pub host: String,
+    pub pk: u8,
+    pub path: String,
+    pub method: Option<String>,
+    pub route: RouteSpec,
+}
+
+#[derive(Clone, Debug, Serialize, Deserialize, PartialEq)]
+pub enum Op {
+    Add(Front),
+    /// only the identity fields (pos, host, pk, path, method) are meaningful
+    Remove(Front),
+}
+
+#[derive(Clone, Debug, Serialize, Deserialize, PartialEq)]
+pub struct Probe {
+    pub host: String,
+    pub path: String,
+    pub method: String,
+}
+
+#[derive(Clone, Debug, Serialize, Deserialize, PartialEq)]
+pub struct Plan {
+    pub seed: u64,
+    /// seed of the installed World = seed of std's per-thread SipHash keys (HashMap order in the trie)
+    pub hash_seed: u64,
+    pub family: String,
+    pub ops: Vec<Op>,
+    pub probes: Vec<Probe>,
+    /// seed of the two insertion permutations of the order-independence check
+    pub perm_seed: u64,
+    /// the order-independence check runs after these many operations (values > ops.len() mean "at the end")
+    pub perm_points: Vec<usize>,
+}
+
+type Ident = (u8, String, u8, String, Option<String>);
+fn ident(f: &Front) -> Ident { (f.pos, f.host.clone(), f.pk, f.path.clone(), f.method.clone()) }
+
+// ------------------------------------------------------------------------- catalogue of regexes
+// Every regex a plan may contain, with a hand-written matcher. Host label regexes never match '.'
+// or the empty string, so "whole-host anchored regex" and "per-label anchored regex" coincide.
+
+pub const LABEL_REGEXES: [&str; 5] = ["[ab]+", "[bc]+", "[a-c]", "b[0-9]+", "[xy]"];
+
+fn label_regex_matches(pat: &str, label: &str) -> bool {
+    let b = label.as_bytes();
+    match pat {
+        "[ab]+" => !b.is_empty() && b.iter().all(|c| *c == b'a' || *c == b'b'),
+        "[bc]+" => !b.is_empty() && b.iter().all(|c| *c == b'b' || *c == b'c'),
+        "[a-c]" => b.len() == 1 && (b'a'..=b'c').contains(&b[0]),
+        "b[0-9]+" => b.len() >= 2 && b[0] == b'b' && b[1..].iter().all(|c| c.is_ascii_digit()),
+        "[xy]" => b.len() == 1 && (b[0] == b'x' || b[0] == b'y'),
+        _ => false,
+    }
+}
+
+/// Path regexes. The first group is written with explicit `^…$` (or is `.*`): anchoring does not
+/// change their meaning. The "bare" group means different things anchored / unanchored;
+/// `doc/configure.md` documents REGEX path rules as "anchored at both ends (`\A...\z`)".
+pub const PATH_REGEXES: [&str; 5] = ["^/a/.*$", "^/[ab]+$", "^/a(/b)?$", "^/.*b$", ".*"];
+pub const BARE_PATH_REGEXES: [&str; 3] = ["/a", "/[ab]", "/a/.*"];
+
+fn is_ab(c: u8) -> bool { c == b'a' || c == b'b' }
+
+/// documented semantics: the regex must match the whole path
+fn path_regex_full(pat: &str, path: &str) -> bool {
+    let b = path.as_bytes();
+    match pat {
+        "^/a/.*$" | "/a/.*" => path.starts_with("/a/"),
+        "^/[ab]+$" => b.len() >= 2 && b[0] == b'/' && b[1..].iter().all(|c| is_ab(*c)),
+        "^/a(/b)?$" => path == "/a" || path == "/a/b",
+        "^/.*b$" => b.len() >= 2 && b[0] == b'/' && b[b.len() - 1] == b'b',
+        ".*" => true,
+        "/a" => path == "/a",
+        "/[ab]" => b.len() == 2 && b[0] == b'/' && is_ab(b[1]),
+        _ => false,
+    }
+}
+
+/// unanchored ("search") semantics, used only to *label* a violation, never to decide one
+fn path_regex_search(pat: &str, path: &str) -> bool {
+    let b = path.as_bytes();
+    match pat {
+        "/a" => path.contains("/a"),
+        "/[ab]" => (0..b.len().saturating_sub(1)).any(|i| b[i] == b'/' && is_ab(b[i + 1])),
+        "/a/.*" => path.contains("/a/"),
+        _ => path_regex_full(pat, path),
+    }
+}
+
+// ------------------------------------------------------------------------------ reference model
+
+#[derive(Clone, Copy, Debug, PartialEq, Eq, PartialOrd, Ord)]
+pub enum HostClass { Regex = 1, Wildcard = 2, Exact = 3, Any = 4 }
+
+pub fn host_class(h: &str) -> HostClass {
+    if h == "*" { HostClass::Any } else if h.contains('/') { HostClass::Regex } else if h.starts_with("*.") { HostClass::Wildcard } else { HostClass::Exact }
+}
+
+/// does the hostname pattern of a frontend cover the request host (byte-exact, as the Router documents)
+pub fn host_matches(rule: &str, host: &str) -> bool {
+    match host_class(rule) {
+        HostClass::Any => true,
+        HostClass::Exact => rule == host,
+        HostClass::Wildcard => {
+            // `*.x.test` covers exactly one non-empty, dot-free leftmost label
+            let suffix = &rule[1..];
+            host.len() > suffix.len() && host.ends_with(suffix) && !host[..host.len() - suffix.len()].contains('.')
+        }
+        HostClass::Regex => {
+            let rl: Vec<&str> = rule.split('.').collect();
+            let hl: Vec<&str> = host.split('.').collect();
+            rl.len() == hl.len()
+                && rl.iter().zip(hl.iter()).all(|(r, h)| {
+                    if r.len() >= 2 && r.starts_with('/') && r.ends_with('/') { label_regex_matches(&r[1..r.len() - 1], h) } else { r == h }
+                })
+        }
+    }
+}
+
+pub fn path_matches(f: &Front, path: &str) -> bool {
+    match f.pk {
+        PREFIX => path.starts_with(f.path.as_str()),
+        EQUALS => path == f.path,
+        _ => path_regex_full(&f.path, path),
+    }
+}
+
+pub fn method_matches(f: &Front, method: &str) -> bool {
+    match &f.method { None => true, Some(m) => m == method }
+}
+
+pub fn full_match(f: &Front, p: &Probe) -> bool {
+    host_matches(&f.host, &p.host) && path_matches(f, &p.path) && method_matches(f, &p.method)
+}
+
+/// `a` is documented to win over `b` (both match the same request, same host entry).
+/// Path dimension: EQUALS > REGEX > PREFIX, longer PREFIX > shorter; two *different* REGEX rules are
+/// declared unordered by the documentation. Method dimension: specific > agnostic. `a` dominates `b`
+/// when it is at least as good in both dimensions and better in one; when the two dimensions
+/// disagree the documentation is silent and neither dominates.
+fn dominates(a: &Front, b: &Front) -> bool {
+    use std::cmp::Ordering::*;
+    let rank = |f: &Front| match f.pk { EQUALS => 3, REGEX => 2, _ => 1 };
+    let pc = if a.pk != b.pk {
+        Some(rank(a).cmp(&rank(b)))
+    } else if a.pk == PREFIX {
+        Some(a.path.len().cmp(&b.path.len()))
+    } else if a.pk == EQUALS {
+        Some(Equal)
+    } else if a.path == b.path {
+        Some(Equal)
+    } else {
+        None
+    };
+    let ma = a.method.is_some() as u8;
+    let mb = b.method.is_some() as u8;
+    match pc { None | Some(Less) => false, Some(Greater) => ma >= mb, Some(Equal) => ma > mb }
+}
+
+fn maximal<'a>(c: &[&'a Front]) -> Vec<&'a Front> {
+    c.iter().filter(|r| !c.iter().any(|o| dominates(o, r))).cloned().collect()
+}
+
+/// acceptable outcome: `Some(uid)` = served by that frontend, `None` = no frontend (404 path)
+pub type Out = Option<u32>;
+
+#[derive(Clone, Debug, Default)]
+pub struct Model {
+    /// active frontends in insertion order
+    pub rules: Vec<Front>,
+    /// every frontend ever added successfully (by the model), for "removed frontend routes" labelling
+    pub ever: BTreeMap<u32, Front>,
+    /// frontends whose add the model refused (same identity as a configured one)
+    pub refused: BTreeMap<u32, Front>,
+    /// uid of the frontend removed by the latest successful (model) removal
+    pub last_removed: Option<u32>,
+    /// uid of the frontend refused by the latest operation (if it was a duplicate add)
+    pub last_refused: Option<u32>,
+}
+
+pub struct Accept {
+    pub set: BTreeSet<Out>,
+    /// the host-first and the full-match-first readings of the tree step disagree for this request
+    pub host_entry_ambiguous: bool,
+}
+
+impl Model {
+    pub fn has(&self, id: &Ident) -> bool { self.rules.iter().any(|r| &ident(r) == id) }
+
+    /// returns true when the frontend is new (the add must succeed)
+    pub fn add(&mut self, f: &Front) -> bool {
+        self.last_removed = None;
+        self.last_refused = None;
+        if self.has(&ident(f)) { self.refused.insert(f.uid, f.clone()); self.last_refused = Some(f.uid); return false; }
+        self.rules.push(f.clone());
+        self.ever.insert(f.uid, f.clone());
+        true
+    }
+    /// returns true when the frontend existed (the remove must succeed)
+    pub fn remove(&mut self, f: &Front) -> bool {
+        let id = ident(f);
+        self.last_removed = None;
+        self.last_refused = None;
+        match self.rules.iter().position(|r| ident(r) == id) { Some(i) => { self.last_removed = Some(self.rules.remove(i).uid); true } None => false }
+    }
+
+    /// tree step; `None` in the result means "the tree does not answer, go on to the post rules"
+    fn tree_accept(&self, p: &Probe) -> (BTreeSet<Out>, bool) {
+        let mut groups: BTreeMap<&str, Vec<&Front>> = BTreeMap::new();
+        for r in self.rules.iter().filter(|r| r.pos == TREE && host_matches(&r.host, &p.host)) {
+            groups.entry(r.host.as_str()).or_default().push(r);
+        }
+        let mut out = BTreeSet::new();
+        if groups.is_empty() { out.insert(None); return (out, false); }
+        fn full_of<'a>(g: &[&'a Front], p: &Probe) -> Vec<&'a Front> { g.iter().filter(|r| path_matches(r, &p.path) && method_matches(r, &p.method)).cloned().collect() }
+        // reading 1 (host first): the most specific host entry covering the request is selected, then
+        // its path rules decide; no rule of that entry matches -> the tree does not answer
+        let mut r1 = BTreeSet::new();
+        let best = groups.keys().map(|h| host_class(h)).max().unwrap();
+        for (h, g) in &groups {
+            if host_class(h) != best { continue; }
+            let c = full_of(g, p);
+            if c.is_empty() { r1.insert(None); } else { for m in maximal(&c) { r1.insert(Some(m.uid)); } }
+        }
+        // reading 2 (full match first): among the frontends matching host, path and method the most
+        // specific host class is kept
+        let mut r2 = BTreeSet::new();
+        let best2 = groups.iter().filter(|(_, g)| !full_of(g, p).is_empty()).map(|(h, _)| host_class(h)).max();
+        match best2 {
+            None => { r2.insert(None); }
+            Some(b2) => {
+                for (h, g) in &groups {
+                    if host_class(h) != b2 { continue; }
+                    for m in maximal(&full_of(g, p)) { r2.insert(Some(m.uid)); }
+                }
+            }
+        }
+        let amb = r1 != r2;
+        out.extend(r1);
+        out.extend(r2);
+        (out, amb)
+    }
+
+    pub fn accept(&self, p: &Probe) -> Accept {
+        let mut set = BTreeSet::new();
+        if let Some(r) = self.rules.iter().find(|r| r.pos == PRE && full_match(r, p)) {
+            set.insert(Some(r.uid));
+            return Accept { set, host_entry_ambiguous: false };
+        }
+        let (t, amb) = self.tree_accept(p);
+        let falls = t.contains(&None);
+        set.extend(t.into_iter().filter(|o| o.is_some()));
+        if falls {
+            set.insert(self.rules.iter().find(|r| r.pos == POST && full_match(r, p)).map(|r| r.uid));
+        }
+        Accept { set, host_entry_ambiguous: amb }
+    }
+
+    pub fn rule(&self, uid: u32) -> Option<&Front> { self.rules.iter().find(|r| r.uid == uid) }
+}
+
+// --------------------------------------------------------------------------- driving the Router
+
+#[derive(Clone, Debug, PartialEq, Eq)]
+pub struct Sig {
+    pub cluster: Option<String>,
+    pub redirect: i32,
+    pub scheme: i32,
+    pub template: Option<String>,
+    pub auth: bool,
+    pub port: Option<u16>,
+}
+
+/// what the frontend's configuration says a request served by it must carry
+pub fn expected_sig(f: &Front) -> Sig {
+    let c = Some(format!("c{}", f.uid));
+    let plain = Sig { cluster: c.clone(), redirect: 0, scheme: 0, template: None, auth: false, port: None };
+    match &f.route {
+        RouteSpec::Cluster => plain,
+        RouteSpec::Deny => Sig { cluster: None, redirect: 2, ..plain },
+        RouteSpec::Redirect { policy, scheme, template, cluster } => Sig {
+            cluster: if *cluster { c } else { None },
+            redirect: *policy,
+            scheme: *scheme,
+            template: if *template { Some(format!("/t{}", f.uid)) } else { None },
+            ..plain
+        },
+        RouteSpec::PolicyDeny { scheme } => Sig { redirect: 2, scheme: *scheme, ..plain },
+        RouteSpec::Auth => Sig { auth: true, ..plain },
+        RouteSpec::Port(p) => Sig { port: Some(*p as u16), ..plain },
+    }
+}
+
+pub fn to_http_frontend(f: &Front) -> HttpFrontend {
+    let s = expected_sig(f);
+    let (redirect, redirect_scheme) = match &f.route {
+        RouteSpec::Redirect { policy, scheme, .. } => (Some(*policy), Some(*scheme)),
+        RouteSpec::PolicyDeny { scheme } => (Some(2), Some(*scheme)),
+        _ => (None, None),
+    };
+    HttpFrontend {
+        cluster_id: s.cluster.clone(),
+        address: "0.0.0.0:80".parse().unwrap(),
+        hostname: f.host.clone(),
+        path: CmdPathRule { kind: f.pk as i32, value: f.path.clone() },
+        method: f.method.clone(),
+        position: match f.pos { PRE => RulePosition::Pre, POST => RulePosition::Post, _ => RulePosition::Tree },
+        tags: None,
+        redirect,
+        redirect_scheme,
+        redirect_template: if matches!(f.route, RouteSpec::Redirect { .. }) { s.template.clone() } else { None },
+        rewrite_host: None,
+        rewrite_path: None,
+        rewrite_port: if let RouteSpec::Port(p) = f.route { Some(p) } else { None },
+        required_auth: if f.route == RouteSpec::Auth { Some(true) } else { None },
+        headers: Vec::new(),
+        hsts: None,
+    }
+}
+
+#[derive(Clone, Debug, PartialEq, Eq)]
+pub enum Obs {
+    NotFound,
+    /// uid recovered from the cluster id `c<uid>` or the redirect template `/t<uid>` (None: anonymous deny)
+    Route { uid: Option<u32>, sig: Sig },
+}
+
+fn observe(router: &Router, p: &Probe) -> Obs {
+    match router.lookup(&p.host, &p.path, &Method::new(p.method.as_bytes())) {
+        Err(_) => Obs::NotFound,
+        Ok(r) => {
+            let sig = Sig {
+                cluster: r.cluster_id.clone(),
+                redirect: r.redirect as i32,
+                scheme: r.redirect_scheme as i32,
+                template: r.redirect_template.clone(),
+                auth: r.required_auth,
+                port: r.rewritten_port,
+            };
+            let uid = sig.cluster.as_deref().and_then(|c| c.strip_prefix('c')).and_then(|n| n.parse().ok())
+                .or_else(|| sig.template.as_deref().and_then(|t| t.strip_prefix("/t")).and_then(|n| n.parse().ok()));
+            Obs::Route { uid, sig }
+        }
+    }
+}
+
+fn obs_code(o: &Obs) -> u64 {
+    match o { Obs::NotFound => 0, Obs::Route { uid: None, .. } => 1, Obs::Route { uid: Some(u), .. } => 2 + *u as u64 }
+}
+
+pub fn pos_name(p: u8) -> &'static str { match p { PRE => "pre", POST => "post", _ => "tree" } }
+pub fn pk_name(k: u8) -> &'static str { match k { PREFIX => "PREFIX", REGEX => "REGEX", _ => "EQUALS" } }
+pub fn hc_name(h: &str) -> &'static str { match host_class(h) { HostClass::Any => "any", HostClass::Exact => "exact", HostClass::Wildcard => "wildcard", HostClass::Regex => "regex" } }
+/// plan-level trigger classification: the most exotic hostname class ever configured in the tree
+fn trigger(m: &Model) -> &'static str {
+    let cls = m.ever.values().chain(m.refused.values()).filter(|f| f.pos == TREE).map(|f| host_class(&f.host)).min();
+    match cls { Some(HostClass::Regex) => "regex_host_in_tree", Some(HostClass::Wildcard) => "wildcard_host_in_tree", _ => "exact_hosts_only" }
+}
+fn short(f: &Front) -> String { format!("{}/{}", pk_name(f.pk), if f.method.is_some() { "method" } else { "any" }) }
+fn show_front(f: &Front) -> String {
+    format!("#{} {} {} {} '{}' {} -> {:?}", f.uid, pos_name(f.pos), f.host, pk_name(f.pk), f.path, f.method.as_deref().unwrap_or("*"), f.route)
+}
+fn show_probe(p: &Probe) -> String { format!("{} {}{}", p.method, p.host, p.path) }
+fn show_obs(o: &Obs) -> String {
+    match o { Obs::NotFound => "no route".into(), Obs::Route { uid: Some(u), .. } => format!("frontend #{u}"), Obs::Route { uid: None, sig } => format!("anonymous {:?}", sig) }
+}
+fn show_out(m: &Model, o: &Out) -> String {
+    match o { None => "no route".into(), Some(u) => m.rule(*u).map(show_front).unwrap_or_else(|| format!("#{u}")) }
+}
+
+/// is the observation one of the acceptable outcomes
+fn obs_in(m: &Model, o: &Obs, a: &BTreeSet<Out>) -> bool {
+    match o {
+        Obs::NotFound => a.contains(&None),
+        Obs::Route { uid: Some(u), .. } => a.contains(&Some(*u)),
+        Obs::Route { uid: None, sig } => a.iter().flatten().filter_map(|u| m.rule(*u)).any(|r| r.route == RouteSpec::Deny && &expected_sig(r) == sig),
+    }
+}
+
+/// the configured frontend an observation points at. A plain deny decision is anonymous: it is
+/// attributed to a configured plain-deny frontend matching the request (one of `prefer` first).
+fn obs_rule<'a>(m: &'a Model, o: &Obs, p: &Probe, prefer: &BTreeSet<Out>) -> Option<&'a Front> {
+    match o {
+        Obs::NotFound => None,
+        Obs::Route { uid: Some(u), .. } => m.rule(*u),
+        Obs::Route { uid: None, sig } => {
+            let c: Vec<&Front> = m.rules.iter().filter(|r| &expected_sig(r) == sig && full_match(r, p)).collect();
+            // one of the preferred; else the one whose stage (pre, tree, post) is consulted first
+            // then the most specific path rule
+            c.iter().find(|r| prefer.contains(&Some(r.uid)))
+                .or(c.iter().min_by_key(|r| (match r.pos { PRE => 0, TREE => 1, _ => 2 }, match r.pk { EQUALS => 0, REGEX => 1, _ => 2 }, usize::MAX - r.path.len())))
+                .cloned()
+        }
+    }
+}
+/// a plain deny decision that a configured plain-deny REGEX frontend explains if its regex is unanchored
+fn anonymous_partial(m: &Model, o: &Obs, p: &Probe) -> bool {
+    let Obs::Route { uid: None, sig } = o else { return false };
+    m.rules.iter().any(|r| &expected_sig(r) == sig && r.pk == REGEX && !path_matches(r, &p.path) && host_matches(&r.host, &p.host) && method_matches(r, &p.method) && path_regex_search(&r.path, &p.path))
+}
+/// a frontend that is not configured (removed: true, or refused as a duplicate: false) which explains the observation
+fn ghost<'a>(m: &'a Model, o: &Obs, p: &Probe) -> Option<(&'a Front, bool)> {
+    let gone = |f: &&Front| m.rule(f.uid).is_none();
+    match o {
+        Obs::NotFound => None,
+        Obs::Route { uid: Some(u), .. } => m.ever.get(u).filter(gone).map(|f| (f, true)).or_else(|| m.refused.get(u).map(|f| (f, false))),
+        Obs::Route { uid: None, sig } => {
+            if anonymous_partial(m, o, p) { return None; }
+            let fits = |f: &&Front| &expected_sig(f) == sig && full_match(f, p);
+            let c: Vec<&Front> = m.ever.values().filter(gone).filter(fits).collect();
+            let r: Vec<&Front> = m.refused.values().filter(fits).collect();
+            r.iter().find(|f| Some(f.uid) == m.last_refused).map(|f| (*f, false))
+                .or_else(|| c.iter().find(|f| Some(f.uid) == m.last_removed).or(c.last()).map(|f| (*f, true)))
+                .or_else(|| r.last().map(|f| (*f, false)))
+        }
+    }
+}
+/// Once a regex hostname has been configured in the tree, the host-entry defects (see the module
+/// report) can produce any downstream symptom; such plans use one key per oracle class.
+fn tkey(m: &Model, specific: String) -> String {
+    if trigger(m) == "regex_host_in_tree" {
+        "regex_host_in_tree".into()
+    } else if m.ever.values().any(|f| f.pos == TREE && f.pk == EQUALS && m.rule(f.uid).is_none()) {
+        // the removal of an EQUALS frontend from the tree is silently ineffective (reported as
+        // removed_frontend_routes/EQUALS when a probe hits it); everything later in such a history is suspect
+        "after_removal_of_tree_EQUALS_frontend".into()
+    } else {
+        specific
+    }
+}
+/// distinguishing input feature of a frontend whose add/remove misbehaves
+fn feature(m: &Model, f: &Front) -> String {
+    if f.pk == EQUALS { "EQUALS".into() } else { tkey(m, format!("{}:{}", pos_name(f.pos), pk_name(f.pk))) }
+}
+
+/// key of an unacceptable routing decision: names the documented relation that is broken
+fn wrong_key(m: &Model, o: &Obs, a: &BTreeSet<Out>, p: &Probe) -> String {
+    let k = wrong_key_specific(m, o, a, p);
+    if k == "got=regex_partial_match" { k } else { tkey(m, k) }
+}
+fn wrong_key_specific(m: &Model, o: &Obs, a: &BTreeSet<Out>, p: &Probe) -> String {
+    let want: Vec<&Front> = a.iter().flatten().filter_map(|u| m.rule(*u)).collect();
+    if let Some(g) = obs_rule(m, o, p, a) {
+        if host_matches(&g.host, &p.host) {
+            if !path_matches(g, &p.path) {
+                if g.pk == REGEX && path_regex_search(&g.path, &p.path) { return "got=regex_partial_match".into(); }
+                return format!("got=path_mismatch:{}:{}", pos_name(g.pos), pk_name(g.pk));
+            }
+            if !method_matches(g, &p.method) { return format!("got=method_mismatch:{}", pos_name(g.pos)); }
+            // a matching frontend, but another one of the same host entry is documented to win
+            if let Some(d) = want.iter().find(|d| d.pos == TREE && g.pos == TREE && d.host == g.host && dominates(d, g)) {
+                return format!("want={} got={}", short(d), short(g));
+            }
+        }
+    } else if let Obs::Route { uid, .. } = o {
+        if anonymous_partial(m, o, p) { return "got=regex_partial_match".into(); }
+        if let Some((_, false)) = ghost(m, o, p) { return "got=refused_duplicate".into(); }
+        return if uid.is_none() { format!("got=unexplained_plain_deny|{}", trigger(m)) } else { "got=unknown".into() };
+    }
+    // the wrong host entry / list answered (or none did)
+    format!("host_entry|{}", trigger(m))
+}
+
+struct Exec {
+    violations: Vec<Violation>,
+    hash: TraceHash,
+    probes: BTreeMap<String, u64>,
+    log: Vec<String>,
+    verbose: bool,
+    routed: u64,
+    adds_ok: u64,
+}
+impl Exec {
+    fn viol(&mut self, class: &str, key: String, detail: String) {
+        if !self.violations.iter().any(|v| v.class == class && v.key == key) {
+            self.violations.push(Violation::new(class, key, detail));
+        }
+    }
+    fn count(&mut self, k: &str, n: u64) { if n > 0 { *self.probes.entry(k.into()).or_insert(0) += n; } }
+}
+
+fn history(m: &Model) -> String {
+    m.rules.iter().map(show_front).collect::<Vec<_>>().join("; ")
+}
+
+/// compare every probe of the plan against the model; returns the observations
+fn check_probes(x: &mut Exec, router: &Router, m: &Model, plan: &Plan, ctx: &str) -> Vec<Obs> {
+    let mut all = Vec::with_capacity(plan.probes.len());
+    for p in &plan.probes {
+        let o = observe(router, p);
+        x.hash.mix(obs_code(&o));
+        let a = m.accept(p);
+        x.count("lookups", 1);
+        if a.set.len() > 1 { x.count("acceptable_set_not_singleton", 1); }
+        if a.host_entry_ambiguous { x.count("host_entry_reading_ambiguous", 1); }
+        match &o { Obs::NotFound => x.count("lookup_no_route", 1), Obs::Route { .. } => { x.routed += 1; x.count("lookup_routed", 1) } }
+        if let Some(Some(u)) = a.set.iter().next() {
+            if let Some(r) = m.rule(*u) { x.count(match r.pos { PRE => "model_route_via_pre", POST => "model_route_via_post", _ => "model_route_via_tree" }, 1); }
+        }
+        reach(x, m, p);
+        if x.verbose {
+            x.log.push(format!("    {:<28} sozu: {:<16} acceptable: {{{}}}", show_probe(p), show_obs(&o), a.set.iter().map(|o| match o { None => "no route".to_string(), Some(u) => format!("#{u}") }).collect::<Vec<_>>().join(", ")));
+        }
+        if !obs_in(m, &o, &a.set) {
+            let acc = a.set.iter().map(|o| show_out(m, o)).collect::<Vec<_>>().join(" | ");
+            // a frontend that is not configured any more
+            if obs_rule(m, &o, p, &a.set).is_none() {
+                if let Some((old, true)) = ghost(m, &o, p) {
+                    x.viol("removed_frontend_routes", feature(m, old), format!("{ctx}: request {} is served by removed frontend [{}]; acceptable: [{}]; configured: [{}]", show_probe(p), show_front(old), acc, history(m)));
+                    all.push(o);
+                    continue;
+                }
+            }
+            let key = wrong_key(m, &o, &a.set, p);
+            x.viol("wrong_route", key, format!("{ctx}: request {} -> {}; acceptable: [{}]; configured (insertion order): [{}]", show_probe(p), obs_rule(m, &o, p, &a.set).map(show_front).unwrap_or_else(|| show_obs(&o)), acc, history(m)));
+        } else if let Obs::Route { uid: Some(u), sig } = &o {
+            if let Some(r) = m.rule(*u) {
+                if &expected_sig(r) != sig {
+                    x.viol("route_fields_mismatch", format!("{:?}", r.route).split(|c: char| !c.is_alphanumeric()).next().unwrap_or("").to_string(), format!("{ctx}: request {} served by [{}] but the decision carries {:?}, configuration says {:?}", show_probe(p), show_front(r), sig, expected_sig(r)));
+                }
+            }
+        }
+        all.push(o);
+    }
+    all
+}
+
+/// reach counters: how often the interesting precedence situations actually occur
+fn reach(x: &mut Exec, m: &Model, p: &Probe) {
+    let tree: Vec<&Front> = m.rules.iter().filter(|r| r.pos == TREE && full_match(r, p)).collect();
+    if tree.is_empty() { return; }
+    let classes: BTreeSet<HostClass> = tree.iter().map(|r| host_class(&r.host)).collect();
+    if classes.len() > 1 { x.count("reach_several_host_classes_match", 1); }
+    let mut by_host: BTreeMap<&str, Vec<&Front>> = BTreeMap::new();
+    for r in &tree { by_host.entry(r.host.as_str()).or_default().push(r); }
+    for g in by_host.values() {
+        if g.len() < 2 { continue; }
+        x.count("reach_several_rules_of_one_host_match", 1);
+        let has = |pk: u8| g.iter().any(|r| r.pk == pk);
+        if has(EQUALS) && g.iter().any(|r| r.pk == PREFIX && r.path.len() == p.path.len()) { x.count("reach_equals_vs_full_length_prefix", 1); }
+        if has(EQUALS) && has(REGEX) { x.count("reach_equals_vs_regex", 1); }
+        if has(REGEX) && has(PREFIX) { x.count("reach_regex_vs_prefix", 1); }
+        if g.iter().filter(|r| r.pk == REGEX).count() > 1 { x.count("reach_several_regex_rules_match", 1); }
+        if g.iter().filter(|r| r.pk == PREFIX).map(|r| r.path.len()).collect::<BTreeSet<_>>().len() > 1 { x.count("reach_nested_prefixes", 1); }
+        if g.iter().any(|a| g.iter().any(|b| a.pk == b.pk && a.path == b.path && a.method.is_some() != b.method.is_some())) { x.count("reach_same_path_method_specific_vs_agnostic", 1); }
+    }
+}
+
+/// order-independence: the same configured set, inserted in two PRNG-chosen orders of the tree
+/// frontends (pre/post keep their relative order, which is documented to matter), must answer
+/// every probe with a single acceptable outcome identically (and acceptably).
+fn perm_check(x: &mut Exec, m: &Model, plan: &Plan, at: usize) {
+    let tree: Vec<&Front> = m.rules.iter().filter(|r| r.pos == TREE).collect();
+    if tree.len() < 2 { return; }
+    x.count("order_checks", 1);
+    let mut rng = Prng::derive(plan.perm_seed, &format!("c04/perm/{at}"));
+    let mut results: Vec<(Vec<Obs>, String)> = Vec::new();
+    // the configured set as a fresh history (nothing removed, nothing refused): the rebuilt routers have no past
+    let mut base = Model::default();
+    for f in &m.rules { base.add(f); }
+    let m = &base;
+    for _ in 0..2 {
+        let mut t = tree.clone();
+        rng.shuffle(&mut t);
+        let order: Vec<&Front> = m.rules.iter().filter(|r| r.pos == PRE).chain(t.into_iter()).chain(m.rules.iter().filter(|r| r.pos == POST)).collect();
+        let mut router = Router::new();
+        for f in &order {
+            x.hash.mix(0x9000 + f.uid as u64);
+            if let Err(e) = router.add_http_front(&to_http_frontend(f)) {
+                x.viol("add_refused", tkey(m, format!("rebuild:{}|{}", pos_name(f.pos), trigger(m))), format!("rebuilding the configured set in another order: add of [{}] refused: {e}", show_front(f)));
+            }
+        }
+        let ctx = format!("after {at} operations, configured set re-inserted in order [{}]", order.iter().map(|f| format!("#{}", f.uid)).collect::<Vec<_>>().join(","));
+        if x.verbose { x.log.push(format!("  {ctx}")); }
+        let obs = check_probes(x, &router, m, plan, &ctx);
+        results.push((obs, ctx));
+    }
+    for (i, p) in plan.probes.iter().enumerate() {
+        let a = m.accept(p);
+        if a.set.len() != 1 { continue; }
+        x.count("order_check_singleton_probes", 1);
+        let (o1, o2) = (&results[0].0[i], &results[1].0[i]);
+        if o1 != o2 {
+            let mut l: Vec<String> = [o1, o2].iter().filter(|o| !obs_in(m, o, &a.set)).map(|o| wrong_key(m, o, &a.set, p)).collect();
+            l.sort();
+            x.viol("order_dependent", l.first().cloned().unwrap_or_default(), format!("request {} -> {} when the configured set is inserted as in ({}), but -> {} as in ({}); documented single answer: [{}]", show_probe(p), show_obs(o1), results[0].1, show_obs(o2), results[1].1, a.set.iter().map(|o| show_out(m, o)).collect::<Vec<_>>().join("")));
+        }
+    }
+}
+
+fn execute(plan: &Plan, verbose: bool) -> Exec {
+    let mut x = Exec { violations: Vec::new(), hash: TraceHash::new(), probes: BTreeMap::new(), log: Vec::new(), verbose, routed: 0, adds_ok: 0 };
+    let mut router = Router::new();
+    let mut m = Model::default();
+    if verbose { x.log.push("  empty router".into()); }
+    let mut prev = check_probes(&mut x, &router, &m, plan, "empty router");
+    for (i, op) in plan.ops.iter().enumerate() {
+        if !x.violations.is_empty() { x.count("stopped_at_first_violating_operation", 1); return x; }
+        if plan.perm_points.contains(&i) { perm_check(&mut x, &m, plan, i); if !x.violations.is_empty() { return x; } }
+        let (f, is_add) = match op { Op::Add(f) => (f, true), Op::Remove(f) => (f, false) };
+        let hf = to_http_frontend(f);
+        let groups_before: BTreeSet<String> = m.rules.iter().filter(|r| r.pos == TREE).map(|r| r.host.clone()).collect();
+        let res = if is_add { router.add_http_front(&hf) } else { router.remove_http_front(&hf) };
+        let changed = if is_add { m.add(f) } else { m.remove(f) };
+        let groups_after: BTreeSet<String> = m.rules.iter().filter(|r| r.pos == TREE).map(|r| r.host.clone()).collect();
+        x.hash.mix(if is_add { 1 } else { 2 });
+        x.hash.mix(f.uid as u64);
+        x.hash.mix(res.is_ok() as u64);
+        let ctx = format!("after op {} ({} [{}] = {})", i + 1, if is_add { "add" } else { "remove" }, show_front(f), if res.is_ok() { "ok".to_string() } else { format!("{:?}", res.as_ref().err().map(|e| e.to_string().chars().take(40).collect::<String>())) });
+        if verbose { x.log.push(format!("  {ctx}")); }
+        match (is_add, changed, res.is_ok()) {
+            (true, true, true) => { x.adds_ok += 1; x.count("add_ok", 1); x.count(&format!("add_ok_{}_{}_{}", pos_name(f.pos), hc_name(&f.host), pk_name(f.pk)), 1); }
+            (true, true, false) => x.viol("add_refused", tkey(&m, format!("{}|{}", pos_name(f.pos), trigger(&m))), format!("{ctx}: a frontend that is not configured yet was refused; configured: [{}]", history(&m))),
+            (true, false, false) => x.count("add_duplicate_refused", 1),
+            (true, false, true) => x.viol("add_duplicate_accepted", feature(&m, f), format!("{ctx}: a second frontend with the same position/hostname/path rule/method as a configured one was accepted (other path kinds refuse it); configured: [{}]", history(&m))),
+            (false, true, true) => { x.count("remove_ok", 1); x.count(&format!("remove_ok_{}_{}_{}", pos_name(f.pos), hc_name(&f.host), pk_name(f.pk)), 1); }
+            (false, true, false) => x.viol("remove_refused", feature(&m, f), format!("{ctx}: removal of a configured frontend was refused; still configured: [{}]", history(&m))),
+            (false, false, _) => x.count("remove_of_unconfigured_frontend", 1),
+        }
+        let diverged = !x.violations.is_empty();
+        let now = check_probes(&mut x, &router, &m, plan, &ctx);
+        if diverged || x.violations.iter().any(|v| v.class == "removed_frontend_routes") {
+            // the operation's result already contradicts the model / the removal did not take effect:
+            // keep only the direct harm, not its consequences on other requests
+            x.violations.retain(|v| v.class != "wrong_route");
+            x.count("stopped_at_first_violating_operation", 1);
+            return x;
+        }
+        // adding/removing a frontend that does not match a request never changes that request's route
+        for (pi, p) in plan.probes.iter().enumerate() {
+            if now[pi] == prev[pi] { continue; }
+            let host_hit = host_matches(&f.host, &p.host);
+            let unrelated = if !changed {
+                Some("nothing_configured_changed")
+            } else if !host_hit {
+                Some("host_does_not_match")
+            } else if !full_match(f, p) {
+                // a tree frontend that creates / deletes the host entry covering the request may
+                // legitimately shadow / unshadow a less specific entry under the host-first reading
+                let entry_changed = f.pos == TREE && groups_before.contains(&f.host) != groups_after.contains(&f.host);
+                if entry_changed { x.count("host_entry_created_or_deleted_changed_route", 1); None } else { Some(if !path_matches(f, &p.path) { "path_does_not_match" } else { "method_does_not_match" }) }
+            } else {
+                None
+            };
+            if let Some(why) = unrelated {
+                let partial = f.pk == REGEX && host_hit && !path_matches(f, &p.path) && path_regex_search(&f.path, &p.path);
+                let key = if partial { "regex_partial_match".to_string() } else { tkey(&m, format!("{}:{}|{}", if is_add { "add" } else { "remove" }, why, trigger(&m))) };
+                x.viol("unrelated_change", key, format!("{ctx}: request {} was -> {} and is now -> {}, although the frontend does not match it ({why}); configured: [{}]", show_probe(p), show_obs(&prev[pi]), show_obs(&now[pi]), history(&m)));
+            }
+        }
+        prev = now;
+    }
+    if x.violations.is_empty() && plan.perm_points.iter().any(|p| *p >= plan.ops.len()) { perm_check(&mut x, &m, plan, plan.ops.len()); }
+    x
+}
+
+fn run(plan: &Plan, verbose: bool) -> RunReport {
+    let p = plan.clone();
+    let hook = std::panic::take_hook();
+    std::panic::set_hook(Box::new(|_| {}));
+    let out = crate::netsim::on_fresh_thread(move || {
+        // first thing on the thread: std draws its per-thread hash keys from the (virtual) entropy
+        let mut w = World::new(p.hash_seed, SchedCfg::default());
+        World::install(&mut w);
+        let r = catch_unwind(AssertUnwindSafe(|| {
+            let x = execute(&p, verbose);
+            (x.violations, x.hash.0, x.probes, x.log, x.routed, x.adds_ok)
+        }));
+        World::uninstall();
+        r.map_err(|e| e.downcast_ref::<String>().cloned().or_else(|| e.downcast_ref::<&str>().map(|s| s.to_string())).unwrap_or_else(|| "panic".into()))
+    });
+    std::panic::set_hook(hook);
+    let mut rep = RunReport { seed: plan.seed, family: plan.family.clone(), summary: summarize(plan), ..Default::default() };
+    match out {
+        Ok((violations, hash, probes, log, routed, adds_ok)) => {
+            rep.violations = violations;
+            rep.trace_hash = hash;
+            rep.probes = probes;
+            rep.nontrivial = routed > 0 && adds_ok > 0;
+            if verbose { rep.summary = log.join("\n"); }
+        }
+        Err(msg) => {
+            let site: String = msg.chars().filter(|c| !c.is_ascii_digit()).take(60).collect();
+            rep.violations.push(Violation::new("panic", site, format!("Router panicked: {msg}")));
+        }
+    }
+    rep
+}
+
+pub fn summarize(p: &Plan) -> String {
+    let ops: Vec<String> = p.ops.iter().map(|o| match o {
+        Op::Add(f) => format!("+{}:{}:{}{}'{}'{}", f.uid, pos_name(f.pos), f.host, ["^", "~", "="][f.pk as usize % 3], f.path, f.method.as_deref().map(|m| format!(":{m}")).unwrap_or_default()),
+        Op::Remove(f) => format!("-{}:{}{}'{}'{}", pos_name(f.pos), f.host, ["^", "~", "="][f.pk as usize % 3], f.path, f.method.as_deref().map(|m| format!(":{m}")).unwrap_or_default()),
+    }).collect();
+    format!("{} hash_seed={:x} ops[{}] probes={}", p.family, p.hash_seed, ops.join(" "), p.probes.len())
+}
+
+// ------------------------------------------------------------------------------------ generator
+
+const DOMAINS: [&str; 2] = ["x.test", "y.test"];
+const LABELS: [&str; 5] = ["a", "b", "c", "ab", "b1"];
+const PREFIX_PATHS: [&str; 7] = ["", "/", "/a", "/a/", "/a/b", "/ab", "/b"];
+const EQUALS_PATHS: [&str; 6] = ["/", "/a", "/a/", "/a/b", "/ab", "/b"];
+const PROBE_PATHS: [&str; 13] = ["/", "/a", "/a/", "/a/b", "/ab", "/b", "/a/b/a", "/b/a", "/b/a/", "/A", "/abb", "/c", "/a/bb"];
+const METHODS: [&str; 3] = ["GET", "POST", "PURGE"];
+const PROBE_METHODS: [&str; 4] = ["GET", "POST", "PURGE", "PUT"];
+
+fn pick_subset<'a>(rng: &mut Prng, all: &[&'a str], lo: usize, hi: usize) -> Vec<&'a str> {
+    let mut v: Vec<&str> = all.to_vec();
+    rng.shuffle(&mut v);
+    let n = rng.range(lo as u64, hi.min(all.len()) as u64) as usize;
+    v.truncate(n.max(1));
+    v
+}
+
+fn gen_route(rng: &mut Prng, policy_pm: u64) -> RouteSpec {
+    if !rng.chance(policy_pm, 1000) { return RouteSpec::Cluster; }
+    match rng.below(7) {
+        0 => RouteSpec::Deny,
+        1 | 6 => RouteSpec::Cluster,
+        2 => { let cluster = rng.chance(1, 2); RouteSpec::Redirect { policy: *rng.pick(&[1, 3, 4]), scheme: rng.below(3) as i32, template: !cluster || rng.chance(1, 2), cluster } }
+        3 => RouteSpec::PolicyDeny { scheme: rng.below(3) as i32 },
+        4 => RouteSpec::Auth,
+        _ => RouteSpec::Port(8000 + rng.below(3) as u32),
+    }
+}
+
+/// a concrete request host related to a frontend hostname pattern (a hit or a near miss)
+fn instantiate_host(rng: &mut Prng, h: &str) -> String {
+    let label = |rng: &mut Prng| rng.pick(&["a", "b", "c", "ab", "b1", "bb", "zz", "x", "A"]).to_string();
+    let base = match host_class(h) {
+        HostClass::Any => format!("{}.{}", label(rng), rng.pick(&DOMAINS)),
+        HostClass::Exact => h.to_string(),
+        HostClass::Wildcard => format!("{}{}", label(rng), &h[1..]),
+        HostClass::Regex => h.split('.').map(|l| if l.starts_with('/') { label(rng) } else { l.to_string() }).collect::<Vec<_>>().join("."),
+    };
+    match rng.below(16) {
+        0 => format!("{base}."),                                                   // trailing dot
+        1 => { let mut c = base.clone().into_bytes(); c[0] = c[0].to_ascii_uppercase(); String::from_utf8(c).unwrap() } // case variant
+        2 => format!("q.{base}"),                                                  // one label more
+        3 => base.split_once('.').map(|x| x.1.to_string()).unwrap_or(base),         // one label less
+        4 => base.replace(".test", ".tes"),
+        _ => base,
+    }
+}
+
+pub fn generate(seed: u64, tier: Tier) -> Plan {
+    let mut rng = Prng::derive(seed, "c04/plan");
+    let hash_seed = rng.next_u64();
+    // ---- swarm parameters
+    let domains = pick_subset(&mut rng, &DOMAINS, 1, 2);
+    let labels = pick_subset(&mut rng, &LABELS, 1, 4);
+    let host_classes = *rng.pick(&[0b001u8, 0b001, 0b011, 0b101, 0b111, 0b111, 0b110, 0b010, 0b100]); // exact=1 wildcard=2 regex=4
+    let path_kinds = *rng.pick(&[0b001u8, 0b011, 0b101, 0b111, 0b111, 0b110, 0b010, 0b100, 0b011]); // prefix=1 regex=2 equals=4
+    let bare_regex = path_kinds & 2 != 0 && rng.chance(1, 4);
+    let method_pm = *rng.pick(&[0u64, 0, 300, 600]);
+    let pos_mode = *rng.pick(&["tree", "tree", "mixed", "mixed", "prepost"]);
+    let policy_pm = *rng.pick(&[0u64, 0, 200, 500]);
+    let remove_pm = *rng.pick(&[0u64, 150, 300, 450]);
+    let nops = match tier { Tier::Quick => rng.range(1, 12), Tier::Thorough => rng.range(1, 24) } as usize;
+    // ---- pools
+    let nhosts = rng.range(1, 5) as usize;
+    let mut hosts: Vec<String> = Vec::new();
+    for _ in 0..nhosts {
+        let classes: Vec<u8> = [1u8, 2, 4].into_iter().filter(|c| host_classes & c != 0).collect();
+        let d = *rng.pick(&domains);
+        let l = *rng.pick(&labels);
+        let h = match *rng.pick(&classes) {
+            1 => match rng.below(12) { 0 => d.to_string(), 1 | 2 => format!("{}.{}.{}", rng.pick(&labels), l, d), _ => format!("{l}.{d}") },
+            2 => if rng.chance(1, 5) { format!("*.{l}.{d}") } else { format!("*.{d}") },
+            _ => {
+                let r = *rng.pick(&LABEL_REGEXES[..4]);
+                match rng.below(8) { 0 => format!("{l}./[xy]/.test"), 1 => format!("/{r}/./[xy]/.test"), _ => format!("/{r}/.{d}") }
+            }
+        };
+        if !hosts.contains(&h) { hosts.push(h); }
+    }
+    let npaths = rng.range(1, 5) as usize;
+    let mut paths: Vec<(u8, String)> = Vec::new();
+    for _ in 0..npaths {
+        let kinds: Vec<u8> = [PREFIX, REGEX, EQUALS].into_iter().filter(|k| path_kinds & (1 << k) != 0).collect();
+        let k = *rng.pick(&kinds);
+        let v = match k {
+            PREFIX => rng.pick(&PREFIX_PATHS).to_string(),
+            EQUALS => rng.pick(&EQUALS_PATHS).to_string(),
+            _ => if bare_regex && rng.chance(1, 2) { rng.pick(&BARE_PATH_REGEXES).to_string() } else { rng.pick(&PATH_REGEXES).to_string() },
+        };
+        if !paths.contains(&(k, v.clone())) { paths.push((k, v)); }
+    }
+    // ---- operations
+    let mut uid = 0u32;
+    let mut active: Vec<Front> = Vec::new();
+    let mut removed: Vec<Front> = Vec::new();
+    let mut ops = Vec::new();
+    let draw = |rng: &mut Prng, uid: &mut u32| -> Front {
+        *uid += 1;
+        let pos = match pos_mode { "tree" => TREE, "mixed" => *rng.pick(&[TREE, TREE, TREE, TREE, PRE, POST]), _ => *rng.pick(&[TREE, PRE, PRE, POST, POST]) };
+        let host = if pos != TREE && rng.chance(1, 5) { "*".to_string() } else { rng.pick(&hosts).clone() };
+        let (pk, path) = rng.pick(&paths).clone();
+        let method = if rng.chance(method_pm, 1000) { Some(rng.pick(&METHODS).to_string()) } else { None };
+        Front { uid: *uid, pos, host, pk, path, method, route: gen_route(rng, policy_pm) }
+    };
+    for _ in 0..nops {
+        if !active.is_empty() && rng.chance(remove_pm, 1000) {
+            if rng.chance(1, 8) {
+                // remove something that is not configured (already removed, or never added)
+                let f = if !removed.is_empty() && rng.chance(1, 2) { rng.pick(&removed).clone() } else { draw(&mut rng, &mut uid) };
+                if let Some(i) = active.iter().position(|a| ident(a) == ident(&f)) { removed.push(active.remove(i)); }
+                ops.push(Op::Remove(f));
+            } else {
+                let i = rng.below(active.len() as u64) as usize;
+                let f = active.remove(i);
+                removed.push(f.clone());
+                ops.push(Op::Remove(f));
+            }
+        } else {
+            let f = if !removed.is_empty() && rng.chance(1, 4) {
+                // re-add a removed identity (new uid, possibly another route)
+                let mut f = rng.pick(&removed).clone();
+                uid += 1;
+                f.uid = uid;
+                if rng.chance(1, 2) { f.route = gen_route(&mut rng, policy_pm); }
+                f
+            } else {
+                draw(&mut rng, &mut uid)
+            };
+            if !active.iter().any(|a| ident(a) == ident(&f)) { active.push(f.clone()); }
+            ops.push(Op::Add(f));
+        }
+    }
+    // a plain deny decision carries nothing that identifies its frontend: at most one such frontend per plan
+    let mut seen_deny = false;
+    for o in ops.iter_mut() {
+        if let Op::Add(f) = o {
+            if f.route == RouteSpec::Deny {
+                if seen_deny { f.route = RouteSpec::PolicyDeny { scheme: 0 }; }
+                seen_deny = true;
+            }
+        }
+    }
+    // ---- probes
+    let nprobes = match tier { Tier::Quick => rng.range(4, 20), Tier::Thorough => rng.range(6, 32) } as usize;
+    let mut probes: Vec<Probe> = Vec::new();
+    let used_methods: Vec<String> = ops.iter().filter_map(|o| match o { Op::Add(f) | Op::Remove(f) => f.method.clone() }).collect();
+    for _ in 0..nprobes {
+        let host = if rng.chance(4, 5) { let h = rng.pick(&hosts).clone(); instantiate_host(&mut rng, &h) } else { format!("{}.{}", rng.pick(&LABELS), rng.pick(&DOMAINS)) };
+        let path = if rng.chance(1, 2) {
+            let (k, v) = rng.pick(&paths).clone();
+            let s = match k { PREFIX => format!("{v}{}", rng.pick(&["", "", "x", "/b", "/", "b"])), EQUALS => format!("{v}{}", rng.pick(&["", "", "", "/", "b"])), _ => rng.pick(&PROBE_PATHS).to_string() };
+            if s.is_empty() { "/".to_string() } else { s }
+        } else {
+            rng.pick(&PROBE_PATHS).to_string()
+        };
+        let method = if !used_methods.is_empty() && rng.chance(1, 2) { rng.pick(&used_methods).clone() } else { rng.pick(&PROBE_METHODS).to_string() };
+        let p = Probe { host, path, method };
+        if !probes.contains(&p) { probes.push(p); }
+    }
+    // a request aimed at (almost) every frontend of the history, so that an ineffective removal shows at once
+    for o in &ops {
+        let Op::Add(f) = o else { continue };
+        let host = match host_class(&f.host) {
+            HostClass::Any => format!("{}.{}", rng.pick(&labels), rng.pick(&domains)),
+            HostClass::Exact => f.host.clone(),
+            HostClass::Wildcard => format!("{}{}", rng.pick(&["a", "b", "c", "zz"]), &f.host[1..]),
+            HostClass::Regex => f.host.split('.').map(|l| match l { "/[ab]+/" => "ab", "/[bc]+/" => "bc", "/[a-c]/" => "b", "/b[0-9]+/" => "b1", "/[xy]/" => "x", x => x }).collect::<Vec<_>>().join("."),
+        };
+        let path = match (f.pk, f.path.as_str()) {
+            (PREFIX, "") => "/".to_string(),
+            (PREFIX, v) | (EQUALS, v) => v.to_string(),
+            (_, "^/a/.*$") | (_, "/a/.*") => "/a/b".into(),
+            (_, "^/.*b$") => "/ab".into(),
+            (_, "/[ab]") => "/b".into(),
+            _ => "/a".into(),
+        };
+        let p = Probe { host, path, method: f.method.clone().unwrap_or_else(|| "GET".into()) };
+        if !probes.contains(&p) { probes.push(p); }
+    }
+    let perm_points = vec![usize::MAX >> 1, rng.below(nops as u64 + 1) as usize];
+    let family = format!("{pos_mode}{}{}{}", if remove_pm > 0 { "+remove" } else { "" }, if method_pm > 0 { "+method" } else { "" }, if bare_regex { "+bare_regex" } else { "" });
+    Plan { seed, hash_seed, family, ops, probes, perm_seed: rng.next_u64(), perm_points }
+}
+
+// ------------------------------------------------------------------------- systematic histories
+
+fn mk(uid: u32, pos: u8, host: &str, pk: u8, path: &str, method: Option<&str>) -> Front {
+    Front { uid, pos, host: host.into(), pk, path: path.into(), method: method.map(|m| m.into()), route: RouteSpec::Cluster }
+}
+fn cross(hosts: &[&str], paths: &[&str], methods: &[&str]) -> Vec<Probe> {
+    let mut v = Vec::new();
+    for h in hosts { for p in paths { for m in methods { v.push(Probe { host: h.to_string(), path: p.to_string(), method: m.to_string() }); } } }
+    v
+}
+
+pub fn systematic() -> Vec<Plan> {
+    let mut out = Vec::new();
+    let mut n = 0u64;
+    let mut push = |family: &str, ops: Vec<Op>, probes: Vec<Probe>, out: &mut Vec<Plan>| {
+        n += 1;
+        out.push(Plan { seed: n, hash_seed: 0xC04_0000 + n, family: family.into(), ops, probes, perm_seed: n, perm_points: vec![usize::MAX >> 1] });
+    };
+    // (a) life cycle of every kind of frontend: add, add a neighbour, remove, re-add (as another cluster), remove all
+    for pos in [PRE, POST, TREE] {
+        for host in ["a.x.test", "*.x.test", "/[ab]+/.x.test", "a./[xy]/.test", "*"] {
+            if host == "*" && pos == TREE { continue; }
+            for (pk, path) in [(PREFIX, "/a"), (REGEX, "^/a(/b)?$"), (EQUALS, "/a")] {
+                for method in [None, Some("GET")] {
+                    let a = mk(1, pos, host, pk, path, method);
+                    let b = mk(2, pos, host, PREFIX, "/b", None);
+                    let a2 = Front { uid: 3, ..a.clone() };
+                    let ops = vec![Op::Add(a.clone()), Op::Add(b.clone()), Op::Remove(a.clone()), Op::Add(a2.clone()), Op::Remove(b), Op::Remove(a2)];
+                    push("systematic_lifecycle", ops, cross(&["a.x.test", "b.x.test", "a.y.test", "c.y.test"], &["/a", "/a/b", "/b", "/"], &["GET", "POST"]), &mut out);
+                }
+            }
+        }
+    }
+    // (b) every ordered pair of path rule / method kinds on one host
+    let kinds: Vec<(u8, &str, Option<&str>)> = [(PREFIX, "/a"), (PREFIX, "/a/"), (PREFIX, "/"), (REGEX, "^/a(/b)?$"), (REGEX, ".*"), (EQUALS, "/a")]
+        .into_iter().flat_map(|(k, p)| [(k, p, None), (k, p, Some("GET"))]).collect();
+    for (i, a) in kinds.iter().enumerate() {
+        for (j, b) in kinds.iter().enumerate() {
+            if i == j { continue; }
+            let ops = vec![Op::Add(mk(1, TREE, "a.x.test", a.0, a.1, a.2)), Op::Add(mk(2, TREE, "a.x.test", b.0, b.1, b.2))];
+            push("systematic_path_pairs", ops, cross(&["a.x.test"], &["/a", "/a/", "/a/b", "/b"], &["GET", "POST"]), &mut out);
+        }
+    }
+    // (c) every ordered pair of hostname patterns, then the first one removed
+    let hosts = ["a.x.test", "b.x.test", "*.x.test", "/[ab]+/.x.test", "/[a-c]/.x.test", "a./[xy]/.test", "/[ab]+/./[xy]/.test"];
+    for (i, a) in hosts.iter().enumerate() {
+        for (j, b) in hosts.iter().enumerate() {
+            if i == j { continue; }
+            let fa = mk(1, TREE, a, PREFIX, "/", None);
+            let ops = vec![Op::Add(fa.clone()), Op::Add(mk(2, TREE, b, PREFIX, "/", None)), Op::Remove(fa)];
+            push("systematic_host_pairs", ops, cross(&["a.x.test", "b.x.test", "c.x.test", "a.y.test", "q.x.test", "a.b.x.test"], &["/"], &["GET"]), &mut out);
+        }
+    }
+    out
+}
+
+// -------------------------------------------------------------------------------------- property
+
+fn parse(plan: &Value) -> Result<Plan, RunReport> {
+    serde_json::from_value(plan.clone()).map_err(|e| RunReport { harness_error: Some(format!("bad plan: {e}")), ..Default::default() })
+}
+
 impl Property for C04 {
     fn id(&self) -> &'static str { "C04" }
-    fn runs(&self, _tier: Tier) -> u64 { 0 }
-    fn gen_plan(&self, _seed: u64, _tier: Tier) -> Value { Value::Null }
-    fn run_plan(&self, _plan: &Value) -> RunReport { RunReport { harness_error: Some("not implemented".into()), ..Default::default() } }
-    fn descr(&self) -> Descr { Descr { level: "exploration", rule: "", assumptions: vec![], real: vec![], stub: vec![], not_covered: vec![] } }
+    fn runs(&self, tier: Tier) -> u64 { match tier { Tier::Quick => 150_000, Tier::Thorough => 4_000_000 } }
+    fn gen_plan(&self, seed: u64, tier: Tier) -> Value { serde_json::to_value(generate(seed, tier)).unwrap() }
+    fn run_plan(&self, plan: &Value) -> RunReport {
+        match parse(plan) { Ok(p) => run(&p, false), Err(r) => r }
+    }
+    fn enumerated(&self, _tier: Tier) -> Vec<Value> { systematic().into_iter().map(|p| serde_json::to_value(p).unwrap()).collect() }
+    fn debug_plan(&self, plan: &Value) -> String {
+        match parse(plan) {
+            Ok(p) => { let r = run(&p, true); format!("{}\nviolations: {:#?}", r.summary, r.violations) }
+            Err(r) => format!("{:?}", r.harness_error),
+        }
+    }
+    fn shrink(&self, plan: &Value) -> Vec<Value> {
+        let Ok(p) = parse(plan) else { return vec![] };
+        let mut out: Vec<Plan> = Vec::new();
+        // truncate the history
+        let n = p.ops.len();
+        if n > 1 { let mut q = p.clone(); q.ops.truncate(n / 2); out.push(q); }
+        if n > 0 { let mut q = p.clone(); q.ops.truncate(n - 1); out.push(q); }
+        // a single probe
+        if p.probes.len() > 1 {
+            if p.probes.len() > 3 { for half in 0..2 { let mut q = p.clone(); let h = q.probes.len() / 2; q.probes = if half == 0 { q.probes[..h].to_vec() } else { q.probes[h..].to_vec() }; out.push(q); } }
+            for i in 0..p.probes.len() { let mut q = p.clone(); q.probes = vec![p.probes[i].clone()]; out.push(q); }
+            for i in 0..p.probes.len() { let mut q = p.clone(); q.probes.remove(i); out.push(q); }
+        }
+        // drop one operation
+        for i in 0..n { let mut q = p.clone(); q.ops.remove(i); out.push(q); }
+        // fewer order checks
+        if p.perm_points.len() > 1 { for i in 0..p.perm_points.len() { let mut q = p.clone(); q.perm_points.remove(i); out.push(q); } }
+        // simpler arguments
+        for i in 0..n {
+            let (Op::Add(f) | Op::Remove(f)) = &p.ops[i];
+            let set = |g: Front| { let mut q = p.clone(); q.ops[i] = match &p.ops[i] { Op::Add(_) => Op::Add(g), Op::Remove(_) => Op::Remove(g) }; q };
+            if f.route != RouteSpec::Cluster { out.push(set(Front { route: RouteSpec::Cluster, ..f.clone() })); }
+            if f.method.is_some() {
+                // drop the method on every operation naming this identity, so removes keep matching their adds
+                let id = ident(f);
+                let mut q = p.clone();
+                for o in q.ops.iter_mut() { let (Op::Add(g) | Op::Remove(g)) = o; if ident(g) == id { g.method = None; } }
+                out.push(q);
+            }
+        }
+        if p.hash_seed != 1 { let mut q = p.clone(); q.hash_seed = 1; out.push(q); }
+        out.into_iter().filter(|q| q != &p).map(|q| serde_json::to_value(q).unwrap()).collect()
+    }
+    fn descr(&self) -> Descr {
+        Descr {
+            level: "exploration",
+            rule: "seeded add/remove/re-add histories of HTTP frontends (swarm: hostname classes exact/wildcard/regex/any, path kinds PREFIX/REGEX/EQUALS, methods, positions pre/tree/post, policies, removal rate, alphabet sizes) plus systematic life-cycle / pairwise-precedence histories, each with 4-32 probe requests (hits and near misses) evaluated against the reference model after every operation and after re-inserting the configured set in two PRNG-chosen orders; a run is non-trivial when >=1 add succeeded and >=1 probe was routed to a frontend; distinct = distinct (operation, result, per-probe decision) trace hashes",
+            assumptions: vec![
+                "checked at the Router API (Router::add_http_front / remove_http_front / lookup), the single object both HTTP and HTTPS listeners delegate to; hostnames reach it already stripped of the port",
+                "hostname comparison is byte-exact at this level (as the Router documents); rule hostnames are lower-case ASCII",
+                "where the documentation is silent (method-specificity against path-specificity, host-first against full-match-first when the most specific host entry has no matching path rule, several regex hostnames or several REGEX paths matching) every candidate is acceptable",
+                "release semantics (debug assertions off)",
+            ],
+            real: vec!["sozu_lib::router::Router (pre/post lists, pattern_trie::TrieNode, DomainRule/PathRule/MethodRule, Frontend -> RouteResult)", "regex, idna", "std HashMap with keys drawn from the plan's hash_seed (installed World)"],
+            stub: vec!["no listener, no sessions: the Router is driven directly", "clock and entropy (World)"],
+            not_covered: vec![
+                "traffic tier (AddHttpFrontend/RemoveHttpFrontend interleaved with keep-alive/H2 requests through a running worker) is not part of this module",
+                "rewrite_host / rewrite_path capture substitution, header edits, HSTS refresh",
+                "non-ASCII (IDNA) hostnames, hostnames with port, query strings",
+                "regex syntax beyond the catalogue (alternation, '.' inside host regexes)",
+            ],
+        }
+    }
 }
